@@ -292,18 +292,20 @@ impl Beam {
     external: Angle,
     crystal_setup: &CrystalSetup,
   ) -> Angle {
-    let snell_external = sin(external);
-    let guess = *(external / ucum::RAD);
+    // a negative external angle is the mirror image of the positive one: solve for the magnitude
+    // on the side of the beam's azimuth plane the angle points to, and restore the sign at the end
+    let sign = (external / ucum::RAD).signum();
+    let snell_external = sin(external).abs();
+    let guess = (external / ucum::RAD).abs();
     let phi = beam.phi();
 
     let curve = |internal| {
-      let direction = direction_from_polar(phi, internal * ucum::RAD);
+      let direction = direction_from_polar(phi, sign * internal * ucum::RAD);
       let n = crystal_setup.index_along(beam.vacuum_wavelength(), direction, beam.polarization());
 
       num::abs(snell_external - (*n) * f64::sin(internal))
     };
 
-    let sign = guess.signum();
     // TODO: THIS IS BROKEN FOR BACKWARD PROPAGATION
     // THINK ABOUT LIMITS
     let theta = math::nelder_mead_1d(curve, (guess, guess + 1.), 100, 0., FRAC_PI_2, 1e-12);
@@ -424,8 +426,7 @@ impl Beam {
 
   /// Set the external azimuthal angle
   pub fn set_theta_external(&mut self, external: Angle, crystal_setup: &CrystalSetup) -> &mut Self {
-    use dim::Abs;
-    let theta = Self::calc_internal_theta_from_external(self, external.abs(), crystal_setup);
+    let theta = Self::calc_internal_theta_from_external(self, external, crystal_setup);
     self.set_angles(self.phi, theta);
     self
   }
